@@ -1,5 +1,6 @@
 import SpecVerif.Proofs.C17
 import SpecVerif.Proofs.C17Impl
+import SpecVerif.Proofs.C17Reg
 /-!
 # C17 — every generated method accepts exactly what its advertised signature says
 
@@ -1088,5 +1089,135 @@ example :
     updateImpl E [("x", "s.x"), ("y", "s.y")]
       ⟨[], [("self", .val "p"), ("_new_value", .val "q"), ("_inplace", .dflt "_inplace"),
             ("_if", .dflt "_if"), ("x", .val "k.x")]⟩ = ⟨.copyOfNew, [("x", "k.x"), ("y", "q.y")]⟩ := rfl
+
+/-! ## WHICH generated method a name resolves to (`Model/C17Reg.lean`)
+
+The theorems above are about ONE generated method, given the class it was built for. The statements below are about
+how methods get onto classes and which one a lookup finds: lazy or immediate bootstrap (parents first), `register_method`
+(only the class's OWN `__dict__` decides whether a generated method is attached), `MethodDescriptor`s that dissolve on
+first use (on the class they were attached to, whichever class they are reached through), lookups on classes, instances
+and through `super()`, hand-written methods in class bodies — for EVERY world of classes (`World`: any number of classes,
+any bases / MRO, decorated or plain, lazy or not), every history of events (`RReach`: class definitions, bootstraps and
+lookups in ANY order, any fuel) and every name. -/
+
+section Registration
+open SpecVerif.C17.Reg
+
+/-- A generated method (descriptor or built function) found in the `__dict__` of class `k` was generated FOR `k`:
+no history of events installs a parent's (or a subclass's) helper on another class. -/
+theorem generated_entry_sits_on_its_class (W : World) (st : RState) (h : RReach W st) (k o : Nat) (n : Name)
+    (hd : st.dict k n = some (.desc o) ∨ st.dict k n = some (.fn o)) : o = k := by
+  have hi := inv_of_reach W st h
+  rcases hd with hd | hd
+  · exact inv_desc_owner W st hi k o n hd
+  · exact inv_fn_owner W st hi k o n hd
+
+/-- What any lookup finds (which class provides the name, and for which class the method was generated / that it is
+hand-written) depends only on WHICH classes exist and WHICH are bootstrapped — not on the order of definitions,
+bootstraps and earlier lookups that led there. Stated for an arbitrary search path (class, instance, `super()`). -/
+theorem lookup_history_independent (W : World) (s t : RState) (hs : RReach W s) (ht : RReach W t)
+    (hd : s.defined = t.defined) (hb : s.booted = t.booted) (mro : List Nat) (n : Name) :
+    (lookupFrom s mro n).map (fun ke => (ke.1, ke.2.own)) = (lookupFrom t mro n).map (fun ke => (ke.1, ke.2.own)) := by
+  rw [lookupFrom_own W s (inv_of_reach W s hs), lookupFrom_own W t (inv_of_reach W t ht)]
+  exact lookupExp_congr W s t hd hb mro n
+
+/-- In particular a lookup — the descriptor dissolving, the method being built — changes nothing any later lookup can
+see, except through the bootstrap of a lazily decorated nested type that building the method triggers (hypothesis:
+the set of bootstrapped classes is the same afterwards; always so when nested types are bootstrapped already). -/
+theorem lookup_does_not_change_resolution (W : World) (fuel : Nat) (st : RState) (h : RReach W st) (via : List Nat)
+    (m : Name) (hsame : (accessVia W fuel st via m).1.booted = st.booted ∧ (accessVia W fuel st via m).1.defined = st.defined)
+    (c : Nat) (n : Name) :
+    resolveOwn W (accessVia W fuel st via m).1 c n = resolveOwn W st c n := by
+  have hi := inv_of_reach W st h
+  have hi' := inv_accessVia W fuel st via m hi
+  unfold resolveOwn resolve
+  rw [lookupFrom_own W _ hi', lookupFrom_own W st hi]
+  exact lookupExp_congr W _ st hsame.2 hsame.1 _ n
+
+/-- After ANY history: on a bootstrapped class, a name the bootstrap generates for that class (a toplevel helper, a
+helper of an attribute the class owns, the constructor) that is not hand-written in its body resolves to the method
+generated for THAT class — whatever was looked up on its parents before the class was bootstrapped. -/
+theorem bootstrapped_class_resolves_to_own (W : World) (st : RState) (h : RReach W st) (c : Nat) (rest : List Nat)
+    (n : Name) (hmro : (W c).mro = c :: rest) (hb : st.booted c = true)
+    (hg : (genNames (W c)).contains n = true) (hh : forced n = true ∨ (W c).hand.contains n = false) :
+    resolveOwn W st c n = some (c, .gen c) := by
+  have hi := inv_of_reach W st h
+  unfold resolveOwn resolve
+  rw [lookupFrom_own W st hi, hmro]
+  unfold lookupExp
+  have : expected W st c n = some (.gen c) := by
+    unfold expected
+    rcases hh with hh | hh <;> simp_all
+  rw [this]
+
+/-- A method written by hand in the body of a class is what a lookup on that class finds (no generated helper ever
+replaces it; `__spec_class_*` backups excepted). -/
+theorem hand_written_wins (W : World) (st : RState) (h : RReach W st) (c : Nat) (rest : List Nat)
+    (n : Name) (hmro : (W c).mro = c :: rest) (hd : st.defined c = true)
+    (hh : (W c).hand.contains n = true) (hf : forced n = false) :
+    resolveOwn W st c n = some (c, .hand) := by
+  have hi := inv_of_reach W st h
+  unfold resolveOwn resolve
+  rw [lookupFrom_own W st hi, hmro]
+  unfold lookupExp
+  have : expected W st c n = some .hand := by
+    unfold expected
+    simp_all
+  rw [this]
+
+/-- Composition with the per-method theorems: the method a lookup yields on a bootstrapped class under a generated name
+is built from the configuration of THAT class (`cfgs c n`: its own nested type, its own attributes), and for a well-formed
+configuration its builder satisfies every hypothesis of `accepts_iff_advertised` / `forwards_bound` /
+`nested_kw_bijection`. -/
+theorem lookup_yields_own_method (cfgs : Nat → Name → MethodCfg) (W : World) (st : RState) (h : RReach W st)
+    (c : Nat) (rest : List Nat) (n : Name) (hmro : (W c).mro = c :: rest) (hb : st.booted c = true)
+    (hg : (genNames (W c)).contains n = true) (hh : forced n = true ∨ (W c).hand.contains n = false)
+    (hok : cfgOK (cfgs c n) = true) :
+    builtMethod cfgs W st c n = some (cfgs c n) ∧ ∃ b, builderFor (cfgs c n) = .ok b ∧ Good b := by
+  refine ⟨?_, generated_methods_satisfy_hypotheses (cfgs c n) hok⟩
+  unfold builtMethod
+  rw [bootstrapped_class_resolves_to_own W st h c rest n hmro hb hg hh]
+
+/-! Non-vacuity and the two boundary cases. World: `Base` (0) and `Sub(Base)` (1), both lazily bootstrapped; both
+generate `update` and `with_child` (`Sub` re-declares `child`). -/
+
+def exWorld : World := fun i =>
+  if i = 0 then ⟨true, true, [], [0], [], ["__init__"], ["update", "with_child"], []⟩
+  else ⟨true, true, [0], [1, 0], [], ["__init__"], ["update", "with_child"], []⟩
+
+/-- `Base` is used first (its `with_child` dissolves), THEN the first instance of `Sub` is made -/
+def exHistory : List Ev := [.define 0, .define 1, .iget 0 "with_child", .iget 1 "with_child"]
+
+def runEvents (W : World) (fuel : Nat) (evs : List Ev) : RState := evs.foldl (step W fuel) RState.empty
+
+theorem runEvents_reach (W : World) (fuel : Nat) (evs : List Ev) : RReach W (runEvents W fuel evs) := by
+  unfold runEvents
+  generalize hs : RState.empty = s
+  have h0 : RReach W s := hs ▸ RReach.empty
+  clear hs
+  induction evs generalizing s with
+  | nil => exact h0
+  | cons e es ih => exact ih _ (RReach.step h0 fuel e)
+
+example : (runEvents exWorld 4 exHistory).booted 1 = true := by decide
+example : resolveOwn exWorld (runEvents exWorld 4 exHistory) 1 "with_child" = some (1, .gen 1) := by decide
+example : resolveOwn exWorld (runEvents exWorld 4 exHistory) 0 "with_child" = some (0, .gen 0) := by decide
+
+/-- Why `booted` is a hypothesis: a lookup on the CLASS does not bootstrap it; before its bootstrap `Sub.with_child` is
+still `Base`'s method (instances cannot see this: making one bootstraps the class). -/
+theorem unbootstrapped_subclass_witness :
+    resolveOwn exWorld (runEvents exWorld 4 [.define 0, .define 1, .boot 0]) 1 "with_child" = some (0, .gen 0) := by
+  decide
+
+/-- Building a method bootstraps the lazily decorated nested type it exposes: `Child` (0) is a lazy spec class,
+`Host` (1) has `child: Child`; the first `Host().with_child` bootstraps `Child`, `Host().update` does not. -/
+def exLazyType : World := fun i =>
+  if i = 0 then ⟨true, true, [], [0], [], ["__init__"], ["update"], []⟩
+  else ⟨true, true, [], [1], [], ["__init__"], ["update", "with_child"], [("with_child", 0)]⟩
+
+example : (runEvents exLazyType 4 [.define 0, .define 1, .iget 1 "update"]).booted 0 = false := by decide
+example : (runEvents exLazyType 4 [.define 0, .define 1, .iget 1 "with_child"]).booted 0 = true := by decide
+
+end Registration
 
 end SpecVerif.Props.C17
